@@ -280,7 +280,7 @@ type convCase struct {
 
 func TestVerif_C11_Conversions(t *testing.T) {
 	vh.Check(t, vh.Prop[convCase]{ID: "C11", Gen: func(t *rapid.T) convCase {
-		return convCase{Seed: rapid.Uint64().Draw(t, "seed"), Len: rapid.SampledFrom([]int{32, 32, 32, 0, 1, 31, 33, 64}).Draw(t, "len"), Mode: rapid.IntRange(0, 3).Draw(t, "mode")}
+		return convCase{Seed: rapid.Uint64().Draw(t, "seed"), Len: rapid.SampledFrom([]int{32, 32, 32, 0, 1, 31, 33, 64}).Draw(t, "len"), Mode: rapid.IntRange(0, 6).Draw(t, "mode")}
 	}, Run: func(c convCase) (*vh.Violation, vh.Outcome) {
 		o := vh.Outcome{NonTrivial: true}
 		raw := vh.Expand(c.Seed, c.Len)
@@ -296,8 +296,27 @@ func TestVerif_C11_Conversions(t *testing.T) {
 		if c.Mode == 3 && len(hx) > 2 {
 			hx = hx[:len(hx)-1] + "g"
 		}
+		if c.Mode == 4 && len(hx) > 2 {
+			// the right number of characters, two of them a prefix: one byte short of an id
+			hx = []string{"0x", "0X"}[c.Seed%2] + hx[2:]
+		}
+		if c.Mode >= 5 && c.Len == 32 {
+			// addresses that are not the 33-byte encoding of a contract id: trailing bytes, or another address type
+			enc := append([]byte{3}, raw...)
+			what := "with trailing bytes"
+			if c.Mode == 5 {
+				enc = append(enc, vh.Expand(c.Seed+1, 1+int(c.Seed%3))...)
+			} else {
+				enc[0] = byte(c.Seed % 3) // 0, 1, 2: asset addresses
+				what = "of another address type"
+			}
+			if id, err := ToContractId(base58.Encode(enc)); err == nil && c.Mode == 5 {
+				return vh.V("C11/address-roundtrip", "ToContractId accepted an address %s (%d bytes) and returned %x", what, len(enc), id[:4]), o
+			}
+			return nil, o
+		}
 		b32, err := HexToByte32(hx)
-		wellFormed := c.Len == 32 && c.Mode != 3
+		wellFormed := c.Len == 32 && c.Mode != 3 && c.Mode != 4
 		if wellFormed != (err == nil) {
 			return vh.V("C11/hex-conversion-domain", "HexToByte32(%d hex digits, mode %d) err=%v", len(hx), c.Mode, err), o
 		}
